@@ -35,7 +35,20 @@ What is proved
     Precondition: t is a well-formed tree of h0 whose BoolOp nodes have AT LEAST ONE child (the parser produces >= 2; for an
     `and` without children the code returns None although the empty conjunction is True - outside the precondition).
     Also proved: only nodes of the sub-tree of t are written (frame clause `only_below`).
-(2) GPRWalker / GPR.update_genes / GPR.genes: see the second half of this module.
+(2) `GPRWalker.visit_Name` / `visit_BoolOp`, `GPR.update_genes`, the `GPR.genes` getter (core/gene.py): the reported gene set
+    is exactly names(h, tree), the identifiers of the Name nodes occurring in the tree (spec function by structural recursion);
+    nothing for a rule without body.  The getter's proved contract has the key `GPR.genes@getter/proved`: it gives the ghost
+    `rule_names` of c02_update_genes (assumed there under the key `GPR.genes@getter`) its definition.  Lemma step
+    `semh-depends-on-names`: the value of a rule depends only on the absent genes that occur in it.
+(3) `GPR._symbolic_gpr` (all node kinds with a symbol table; the first call that builds the table from GPR.genes),
+    `GPR.as_symbolic` (no display names), `GPR.__eq__`: the sympy expression has the Boolean value of the rule for every set of
+    absent genes (Symbol("") for a rule without body), relative to the ASSUMED meaning of sympy's Symbol / Or / And; `==`
+    returns True only for logically equivalent rules, relative to the ASSUMED soundness of sympy's `equals`.
+    `GPRCleaner.visit_BinOp`: `&` -> a new BoolOp with an And node, `|` -> with an Or node, `values` a LIST of exactly the two
+    cleaned operands in order, TypeError for any other operator (see the last section).
+NOT attempted: GPRCleaner.visit_Name (rewrites identifiers: string level), from_symbolic._sympy_to_ast (allocates nodes
+under a list comprehension), GPR.copy (deepcopy of a tree), the root case of _GeneRemover.visit (generic_visit deletes the `body`
+attribute of the GPR object; remove_genes then sets it to None).
 
 What is assumed (listed in the evidence)
 ----------------------------------------
@@ -48,7 +61,33 @@ What is assumed (listed in the evidence)
 * `<Visitor>.visit`: the dispatch on the class name (cases = the proved contracts).
 * rule trees are finite (structural induction is well founded).
 
-Mutation trials: see the end of the module docstring (filled in below).
+Boundary of the precondition (native, /var/tmp probe): for a hand-built DAG - GPR(Expression(BoolOp(Or(), [x, x]))) with ONE
+object x = (a and b) used twice, which deepcopy keeps shared - _GeneRemover({"a"}) returns `b` although the rule is False with
+`a` absent (the second visit sees the list the first one already shortened).  Rules parsed from text or built by from_symbolic
+are trees; the separation assumption is therefore load-bearing, not decoration.
+Native cross-check of the specifications (3000 random parsed trees x target sets x all absent sets): no deviation.
+
+Mutation trials (tools/mutate_and_run.sh; every mutant left the named obligation unproved)
+  delete.py  visit_Name: `None if ... else node` -> `node if ... else None`            visit_Name post.1 / post.2
+  delete.py  visit_BoolOp: `len(node.values) == 0` -> `< 0`                             visit_BoolOp exit#3 post.2
+  delete.py  visit_BoolOp: `len(node.values) == 1` -> `== 2`                            exit#3/#5/#6 post.2
+  delete.py  visit_BoolOp: `< original_n and` -> `<= original_n and`                    exit#2 post.1
+  delete.py  visit_BoolOp: `and isinstance(node.op, And)` -> `and not isinstance(...)`  exit#2 post.1, exit#3/#4 post.2
+  delete.py  visit_BoolOp: generic_visit call dropped                                   exit#1/#2 post.2
+  delete.py  visit_BoolOp: original_n taken AFTER generic_visit                         exit#2/#3 post.2
+  (`return node.values[0]` -> `return node` still verifies: a one-child and/or node is equivalent to its child and well formed -
+   the statement is semantic, it does not demand the simplification)
+  gene.py    GPRWalker.visit_Name: add dropped                                          visit_Name post
+  gene.py    GPRWalker.visit_BoolOp: body -> pass                                       visit_BoolOp post
+  gene.py    update_genes: deepcopy(walker.gene_set) -> set(); walker.visit dropped; `if self.body` negated     post.1 (+ call pre)
+  gene.py    genes getter: update_genes() call dropped                                  post.1 / post.2
+  gene.py    _symbolic_gpr: spl.Or -> spl.And; Name -> Symbol(""); root condition negated; Symbol(name="g"); values[1:]
+                                                                                        post of the case / call:_symbolic_gpr/pre
+  gene.py    __eq__: `return False` -> `return True` (one empty / one Symbol); other_symb from self; `and` -> `or`     post
+  gene.py    as_symbolic: table {} instead of None; self.body instead of self           call:GPR._symbolic_gpr/pre
+  gene.py    visit_BinOp: TUPLE (node.left, node.right) (the historical defect)         call:BoolOp.__init__/pre
+  gene.py    visit_BinOp: And() -> Or(); operands swapped; BitAnd test -> BitOr; raise -> return node; [node.left] only
+                                                                                        post.7 / post.9-11 / expected-TypeError / post.8
 """
 import z3
 from .common import *  # noqa
@@ -756,3 +795,131 @@ def _eq_post(E):
 REG.add(Contract(MG, "GPR.__eq__", "C08", [("self", TRef("GPR")), ("other", TRef("GPR"))], [Case("any", ensures=_eq_post)],
                  pre=_eq_pre, modifies=lambda E: [("heap", "gpr_genes")], axioms=lambda E: _sy_axioms(E) + sympy_eq_axioms(),
                  key="GPR.__eq__", result="bool"))
+
+
+# ================================================================ (3, continued) GPRCleaner.visit_BinOp: `a & b` -> And, `a | b` -> Or
+# A BinOp node (tag BinOp, heap fields left / right / op with op a BitAnd / BitOr / other operator node) is what ast.parse produces
+# for `&` and `|`.  Proved: after generic_visit has cleaned the operands (assumed: left / right are replaced by the non-None results
+# of visiting them; may raise the TypeError of a nested visit_BinOp) the method returns a NEW BoolOp node whose operator is an And
+# node for `&` and an Or node for `|`, whose `values` is a LIST (what NodeTransformer.generic_visit descends into later: the
+# constructor contract's precondition - a tuple there was a real defect) holding exactly the cleaned left and right operand, in
+# this order, and whose Boolean value is therefore the conjunction / disjunction of theirs; any other operator raises TypeError.
+# Object allocation is an ASSUMED contract per node class: the new node is not None, is no operand of the call and no child of any
+# existing node; the class tag (and, for BoolOp, the `op` field given to the constructor) are attributes of the new identity;
+# its `values` are the elements of the list passed; no existing node is written.
+T_BINOP, T_BITAND, T_BITOR = 8, 9, 10
+_MORE_TAGS = {"BinOp": T_BINOP, "BitAnd": T_BITAND, "BitOr": T_BITOR}
+REG.fields.update({"left": "ref:AstNode", "right": "ref:AstNode"})
+REG.classes.setdefault("GPRCleaner", ["NodeTransformer"])
+
+
+def cl_isinstance_hook(eng, st, v, clsname):
+    if isinstance(v, VRef) and v.cls == "AstNode" and clsname in _MORE_TAGS:
+        return z3.And(v.t != NULL, eng.heap_arr(st, "ast_tag")[v.t] == _MORE_TAGS[clsname])
+    return None
+
+
+def cl_global_hook(eng, name):
+    if name in ("BoolOp", "And", "Or", "BitAnd", "BitOr"):
+        return VClass(name)
+    return None
+
+
+HOOKS_CL = chain_hooks({"isinstance": cl_isinstance_hook, "global": cl_global_hook}, HOOKS_SYM)
+HOOKS_CL["call_abstract"] = HOOKS_SYM["call_abstract"]
+HOOKS = HOOKS_CL
+
+
+def _not_a_child(h, z):
+    x, i = qv("cx", Ref), qv("ci")
+    return FA([x, i], z3.Implies(z3.And(0 <= i, i < h[0][x]), h[1][x][i] != z), patterns=[h[1][x][i]])
+
+
+def _new_op_node(tagval, clsname):
+    def post(E):
+        z = E["self"].t
+        return z3.And(z != NULL, H(E, E.s0, "ast_tag")[z] == tagval, _not_a_child(heap3(E, E.s0), z))
+    REG.add(Contract("ast", clsname + ".__init__", "C08", [("self", TNone())], [Case("new", ensures=post)], assumed=True,
+                     key=clsname + ".__init__", result=lambda eng, st, E: (st, VRef(fresh("new_" + clsname.lower(), Ref), "AstNode")),
+                     note=f"object allocation ast.{clsname}(): a new operator node (its class tag is {clsname}), child of no existing node"))
+
+
+_new_op_node(T_AND, "And")
+_new_op_node(T_OR, "Or")
+
+
+def _values_is_list(E):
+    v = E["values"]
+    return z3.BoolVal(isinstance(v, VObj) and v.kind == "list" and str(E.s0.objs[v.oid].get("ekind", "")).startswith("ref"))
+
+
+def _boolop_new_post(E):
+    z, o = E["self"].t, E["op"].t
+    h0, h1 = heap3(E, E.s0), heap3(E, E.s1)
+    n, e = L(E.s0, E["values"])
+    j, x = qv("bj"), qv("bx", Ref)
+    return z3.And(z != NULL, z != o, H(E, E.s0, "ast_tag")[z] == T_BOOLOP, H(E, E.s0, "op")[z] == o, _not_a_child(h0, z),
+                  FA([j], z3.Implies(z3.And(0 <= j, j < n), e[j] != z), patterns=[e[j]]),
+                  h1[0][z] == n, FA([j], z3.Implies(z3.And(0 <= j, j < n), h1[1][z][j] == e[j]), patterns=[h1[1][z][j]]),
+                  FA([x], z3.Implies(x != z, z3.And(h1[0][x] == h0[0][x], h1[1][x] == h0[1][x])), patterns=[h1[0][x], h1[1][x]]))
+
+
+REG.add(Contract("ast", "BoolOp.__init__", "C08", [("self", TNone()), ("op", TRef("AstNode")), ("values", TList("ref:AstNode"))],
+                 [Case("new", ensures=_boolop_new_post)], pre=_values_is_list, modifies=RM_MOD, assumed=True, key="BoolOp.__init__",
+                 result=lambda eng, st, E: (st, VRef(fresh("new_boolop", Ref), "AstNode")),
+                 note="object allocation ast.BoolOp(op, values) with `values` a LIST (precondition: the transformer only descends into "
+                      "lists): a new node (class tag BoolOp, operator `op`), different from `op` and from the elements, child of no "
+                      "existing node, whose child list holds the elements of `values`; no existing node is written"))
+
+CL_PARAMS = [("self", TObj("GPRCleaner", {"gene_set": TSet("id")})), ("node", TRef("AstNode"))]
+
+
+def _cl_pre(E):
+    t = E["node"].t
+    return z3.And(H(E, E.s0, "ast_tag")[t] == T_BINOP, H(E, E.s0, "op")[t] != NULL, H(E, E.s0, "left")[t] != NULL, H(E, E.s0, "right")[t] != NULL)
+
+
+def _cl_optag(E):
+    return H(E, E.s0, "ast_tag")[H(E, E.s0, "op")[E["node"].t]]
+
+
+CL_MOD = lambda E: [("heap", "values_n"), ("heap", "values_seq"), ("heap", "left"), ("heap", "right"), ("heap", "id"),  # noqa
+                    ("set", E.s0.objs[E["self"].oid]["attr:gene_set"])]
+
+
+def _cl_gv_post(E):
+    t = E["node"].t
+    return z3.And(H(E, E.s1, "left")[t] != NULL, H(E, E.s1, "right")[t] != NULL)
+
+
+_cl_gv = Case("BinOp", ensures=_cl_gv_post)
+_cl_gv.may_raise = "TypeError"
+REG.add(Contract(MG, "GPRCleaner.generic_visit", "C08", CL_PARAMS, [_cl_gv], pre=_cl_pre, modifies=CL_MOD, assumed=True,
+                 key="GPRCleaner.generic_visit", result="opaque",
+                 note="ast.NodeTransformer.generic_visit on a BinOp node: `left`, `op`, `right` are visited in this order and replaced by "
+                      "the results, which are nodes (no method of GPRCleaner returns None); identifiers, child lists and gene_set may "
+                      "have been rewritten below; a nested visit_BinOp may raise TypeError"))
+
+
+def _cl_post(optag):
+    def post(E):
+        t, r = E["node"].t, E.res.t
+        tg, op = H(E, E.s0, "ast_tag"), H(E, E.s0, "op")
+        h1 = heap3(E, E.s1)
+        l1, r1 = H(E, E.s1, "left")[t], H(E, E.s1, "right")[t]
+        # (stated over the two entries of the new child list, which the two clauses before identify with the cleaned operands)
+        both = (z3.And if optag == T_AND else z3.Or)(semh(*h1, h1[1][r][0], VIS_K), semh(*h1, h1[1][r][1], VIS_K))
+        return z3.And(r != NULL, r != t, r != l1, r != r1, tg[r] == T_BOOLOP, op[r] != NULL, tg[op[r]] == optag,
+                      h1[0][r] == 2, h1[1][r][0] == l1, h1[1][r][1] == r1, semh(*h1, r, VIS_K) == both)
+    return post
+
+
+_cl_and = Case("BitAnd", requires=lambda E: _cl_optag(E) == T_BITAND, ensures=_cl_post(T_AND))
+_cl_or = Case("BitOr", requires=lambda E: _cl_optag(E) == T_BITOR, ensures=_cl_post(T_OR))
+_cl_and.may_raise = _cl_or.may_raise = "TypeError"           # from a nested `&` / `|` with an unsupported operator below
+_cl_and.ensures_on_raise = _cl_or.ensures_on_raise = lambda E: z3.BoolVal(True)
+_cl_other = Case("other_operator", requires=lambda E: z3.And(_cl_optag(E) != T_BITAND, _cl_optag(E) != T_BITOR), raises="TypeError")
+_cl_other.modifies_on_raise = CL_MOD
+REG.add(Contract(MG, "GPRCleaner.visit_BinOp", "C08", CL_PARAMS, [_cl_and, _cl_or, _cl_other], pre=_cl_pre, modifies=CL_MOD,
+                 axioms=lambda E: tree_axioms(E, E.s0), key="GPRCleaner.visit_BinOp",
+                 result=lambda eng, st, E: (st, VRef(fresh("binop_res", Ref), "AstNode"))))
